@@ -56,6 +56,17 @@ class Undecided(Exception):
     pass
 
 
+# address-space limit per process (inherited by every cbmc / kani-driver child): one run-away SAT instance must end as
+# "undecided" for its own harness instead of taking the machine (and every other harness of the group) down with it
+MEM_LIMIT_GB = int(os.environ.get("VERIF_KANI_MEM_GB", "18"))
+
+
+def _limit_memory():
+    import resource
+    lim = MEM_LIMIT_GB * 1024 * 1024 * 1024
+    resource.setrlimit(resource.RLIMIT_AS, (lim, lim))
+
+
 class Harness:
     def __init__(self, name, file, meta, line):
         self.name = name
@@ -254,7 +265,7 @@ def run_group(scratch, cfg_name, harnesses, jobs=None, extra_args=None):
     waves = (len(harnesses) + MAX_JOBS - 1) // MAX_JOBS
     overall = 600 + tmo * waves + 120
     try:
-        p = subprocess.run(cmd, cwd=scratch, env=env, capture_output=True, text=True, timeout=overall)
+        p = subprocess.run(cmd, cwd=scratch, env=env, capture_output=True, text=True, timeout=overall, preexec_fn=_limit_memory)
         stdout, stderr, rc = p.stdout, p.stderr, p.returncode
     except subprocess.TimeoutExpired as e:
         stdout = (e.stdout or b"").decode("utf8", "replace") if isinstance(e.stdout, bytes) else (e.stdout or "")
